@@ -141,6 +141,13 @@ def programs(ctx):
     return out
 
 
+# a fixed history for the hand-written programs: the without-replacement samplers are asked for more
+# sequences than exist, several times on the same block (seed C19-enumerator-cached-on-block)
+EXHAUST_OPS = [{"op": "synth", "strategy": "RandomGen", "n": 30}, {"op": "print"},
+               {"op": "synth", "strategy": "RandomGen", "n": 30}, {"op": "synth", "strategy": "IterateSATGen", "n": 30},
+               {"op": "synth", "strategy": "RandomGen", "n": 30}, {"op": "synth", "strategy": "IterateSATGen", "n": 30}]
+
+
 def gen_ops(rng):
     n = rng.randint(2, 8)
     ops = []
@@ -439,6 +446,12 @@ def judge_history(program, ops, h, ds):
                           "op %d %s returns no sequence, while the same call on a fresh block returns %d" %
                           (i, json.dumps(op), len(base[1])), i))
             continue
+        if len(res[1]) < len(base[1]) and op["strategy"] in ("IterateSATGen", "RandomGen", "IterateGen"):
+            # without replacement: min(requested, available) sequences, whatever was drawn before
+            found.append(("history:synthesis-fewer",
+                          "op %d %s returns %d sequences, while the same call on a fresh block returns %d" %
+                          (i, json.dumps(op), len(res[1]), len(base[1])), i))
+            continue
         for e in res[1]:
             cols = sorted(map(str, e.keys()))
             if cols != bcols:
@@ -660,8 +673,9 @@ def run(ctx, res):
                 ds = None
                 stats["programs:outside-docsem"] += 1
             base_cache = {}
-            for _ in range(per_prog):
-                ops = gen_ops(ctx.rng)
+            fixed = [EXHAUST_OPS] if name.startswith("corpus19:") or name in ("corpus:stroop", "corpus:repeat-partial-window") else []
+            for k in range(per_prog + len(fixed)):
+                ops = fixed[k - per_prog] if k >= per_prog else gen_ops(ctx.rng)
                 h = run_history(program, ops, tmpdir, base_cache)
                 if h is None:
                     stats["programs:constructor-rejects"] += 1
